@@ -26,7 +26,7 @@ run_one() {
   elif [ $rc -eq 0 ]; then echo "MISSED $id $(pname "$patch")" >> "$res";
   else echo "INCONCLUSIVE($rc) $id $(pname "$patch") :: $(echo "$out" | tail -3 | tr '\n' ' ' | cut -c1-300)" >> "$res"; fi
   tag=$(printf %s "$dir" | sha256sum | cut -c1-8)
-  rm -f "$ROOT"/bin/*.$tag.test "$ROOT"/bin/*.$tag.race.test "$ROOT"/work/alt.$tag.mod "$ROOT"/work/alt.$tag.sum
+  rm -f "$ROOT"/bin/*.$tag.test "$ROOT"/bin/*.$tag.race.test "$ROOT"/bin/*.$tag.386.test "$ROOT"/work/alt.$tag.mod "$ROOT"/work/alt.$tag.sum
   rm -rf "$dir" "$ROOT/work/$id.$tag"
 }
 JOBS=${JOBS:-4}
